@@ -47,6 +47,14 @@ def wide_dataset(rng, D, m, P):
     return sorted(set(quads))
 
 
+def big_dataset(rng, D):
+    """Exactly D (<= 132) default-graph quads over 6 subjects, plus a few named-graph quads."""
+    allq = [(s_, p, o, "") for s_ in G.IRIS for p, objs in ((G.P_IRI[0], G.IRIS), (G.P_IRI[1], G.IRIS), (G.P_VAL, G.INTS), (G.P_LIT, G.LITS)) for o in objs]
+    quads = rng.sample(allq, D)
+    quads += [(rng.choice(G.IRIS[:4]), rng.choice(G.PREDS[:2]), rng.choice(G.IRIS[:5]), rng.choice(G.GRAPHS[:2])) for _ in range(3)]
+    return sorted(set(quads))
+
+
 def gen_cases(seed, n, threads, max_assign):
     rng = random.Random(seed * 15485863 + 2)
     cases = []
@@ -65,16 +73,22 @@ def gen_cases(seed, n, threads, max_assign):
             q["p"]["ps"].append(g.bgp(rng.choice([2, 3, 4])))
         wide = i % 8 == 7
         if wide:
-            # wide left side: the bind join's left input has L = D * m rows with L >= 64 * k and L % k != 0 for pools of k = 2 and 3
-            # workers (execute_bind_join splits its left input over the pool once it exceeds BIND_JOIN_MIN_CHUNK = 64 rows per worker)
-            D, m = [(29, 7), (31, 7), (27, 5), (35, 7)][(i // 8) % 4]
-            P = G.P_IRI[(i // 8) % 2]
-            quads = wide_dataset(rng, D, m, P)
             V, C = G.V, G.C
-            # a selective third pattern keeps the answer (and TLC's evaluation of it) small; the bind join's left input is still D * m rows
-            third = [[V("a"), C(G.P_LIT), C(G.LITS[(i // 8) % 3])]] if (i // 8) % 3 else [[V("a"), C(G.P_VAL), V("f")]]
-            q["p"] = {"t": "join", "ps": [{"t": "bgp", "tps": [[V("a"), V("b"), V("c")]]}, {"t": "bgp", "tps": [[V("d"), C(P), V("e")]]},
-                                          {"t": "bgp", "tps": third}]}
+            if (i // 8) % 2 == 0:
+                # big scans: every pattern matches D >= 128 default-graph quads (D odd), so whatever join order the optimizer picks,
+                # the bind join's left input has D rows: more than BIND_JOIN_MIN_CHUNK (64) per worker of a 2-thread pool, with a remainder
+                D = [131, 129, 131][(i // 16) % 3]
+                quads = big_dataset(rng, D)
+                q["p"] = {"t": "join", "ps": [{"t": "bgp", "tps": [[V("a"), V("b"), V("c")], [V("c"), V("d"), V("e")]]}]}
+            else:
+                # wide left side: the left input of the last join is the cross product of D * m rows (>= 64 * k with a remainder for
+                # pools of k = 2 and 3 workers) when the optimizer keeps the selective third pattern for the end
+                D, m = [(29, 7), (31, 7), (35, 7)][(i // 16) % 3]
+                P = G.P_IRI[(i // 16) % 2]
+                quads = wide_dataset(rng, D, m, P)
+                third = [[V("a"), C(G.P_LIT), C(G.LITS[(i // 16) % 3])]] if (i // 16) % 2 else [[V("a"), C(G.P_VAL), V("f")]]
+                q["p"] = {"t": "join", "ps": [{"t": "bgp", "tps": [[V("a"), V("b"), V("c")]]}, {"t": "bgp", "tps": [[V("d"), C(P), V("e")]]},
+                                              {"t": "bgp", "tps": third}]}
             q["star"], q["proj"], q["from"], q["fromnamed"], q["group"] = True, [], [], [], []
         q["order"], q["limit"], q["distinct"] = [], -1, False
         qs = [q]
